@@ -71,6 +71,10 @@ def gen_history(rng, cfg, nlisteners, polite):
 def make_case(rng):
     threads = rng.randint(1, 3)
     cfg = {"threads": threads, "worker_connections": rng.randint(1, 5), "keepalive": rng.choice([0, 1, 2])}
+    if rng.random() < 0.35:
+        # hold pool threads back at the worker's lock so that the loop runs in between (interleaving exploration)
+        cfg["_lock_delay"] = rng.choice([0.3, 0.6, 1.0])
+        cfg["_lock_seed"] = rng.randrange(1 << 30)
     nl = rng.choice([1, 1, 2])
     polite = rng.random() < 0.6
     return {"cfg": cfg, "listeners": nl, "polite": polite, "history": gen_history(rng, cfg, nl, polite)}
@@ -186,6 +190,7 @@ def main(tier, seed):
     run = Run(PROP, tier, seed, "exploration", RULE)
     run.require("histories", "enumerated_histories", "selects", "accepted_connections", "handler_finished_keepalive",
                 "handler_finished_close", "keepalive_expiries_observed", "histories_reaching_capacity", "drain_checks",
+                "pool_thread_lock_delays",
                 "aux_nr_conns_agrees")
     q = tier == "quick"
     shards = [{"kind": "random", "n": 1500 if q else 20000, "sub": i, "seed": seed, "tier": tier} for i in range(16 if q else 32)]
